@@ -328,6 +328,19 @@ def gen_ext(rng, schema, n, force_wrapdir=False):
             {"name": u + "z_val", "ty": ty("Int"), "args": []},
             {"name": "z_ref", "ty": ty(rng.choice(out_pool + [zed])), "args": [{"name": u + "z_arg", "ty": ty("Int")}] if rng.random() < 0.5 else []}]})
         out_pool = out_pool + [zed]
+        # `type Zed implements I { …I's fields… }`: an object type DEFINED by the document that declares an interface of the
+        # source (the heap model carries them: Ext.newIfaces / setNewIfaces). Decided WITHOUT drawing from `rng` (the stream
+        # of every later choice stays what it was): a fixed function of the step number and the schema's interfaces.
+        ifs = sorted(names["interface"])
+        if ifs and (n * 7 + len(ifs) + len(names["object"])) % 2 == 0:
+            iname = ifs[(n + len(names["object"])) % len(ifs)]
+            iface = schema.types[iname]
+            mine = {f["name"] for f in ext["new_types"][-1]["fields"]}
+            if not (mine & {f.name for f in iface.fields}):
+                ext["new_types"][-1]["fields"] += [
+                    {"name": f.name, "ty": _ty_json(f.type), "args": [{"name": a.name, "ty": _ty_json(a.type)} for a in f.arguments]}
+                    for f in iface.fields]
+                ext["new_types"][-1]["implements"] = [iname]
     wrap_targets = []
     if names["object"] and rng.random() < 0.6:
         o = pick(names["object"])
@@ -340,6 +353,9 @@ def gen_ext(rng, schema, n, force_wrapdir=False):
         for o in names["object"]:
             if any(x.name == i for x in schema.types[o].interfaces):
                 ext["fields"].setdefault(o, []).append(copy.deepcopy(f))
+        for t in ext["new_types"]:
+            if i in t.get("implements", []):
+                t["fields"].append(copy.deepcopy(f))
     if names["union"] and zed and rng.random() < 0.5:
         ext["members"][pick(names["union"])] = [zed]
     if names["enum"] and rng.random() < 0.4:
@@ -363,6 +379,15 @@ def gen_ext(rng, schema, n, force_wrapdir=False):
 WRAPDIR = "c14wrap"
 
 
+def _ty_json(t):
+    from py_gql.schema import ListType, NonNullType
+    if isinstance(t, ListType):
+        return {"k": "list", "t": _ty_json(t.type)}
+    if isinstance(t, NonNullType):
+        return {"k": "nonNull", "t": _ty_json(t.type)}
+    return {"k": "named", "n": t.name}
+
+
 def ty_sdl(t):
     return t["n"] if t["k"] == "named" else ("[%s]" % ty_sdl(t["t"]) if t["k"] == "list" else ty_sdl(t["t"]) + "!")
 
@@ -378,7 +403,8 @@ def ext_sdl(ext, schema):
                                                if f.get("args") else "", ty_sdl(f["ty"]),
                                                " @" + WRAPDIR if (owner, f["name"]) in targets else "") for f in fs) + " }"
     for t in ext["new_types"]:
-        parts.append("type %s %s" % (t["name"], fields(t["fields"])))
+        parts.append("type %s%s %s" % (t["name"], (" implements " + " & ".join(t["implements"])) if t.get("implements") else "",
+                                       fields(t["fields"])))
     for n, fs in ext["fields"].items():
         kw = "interface" if isinstance(schema.types[n], InterfaceType) else "type"
         parts.append("extend %s %s %s" % (kw, n, fields(fs, n)))
@@ -1297,6 +1323,8 @@ def one_sequence(ctx, seed_note, size, n_steps, steps=None, build_seed=None):
             if e.get("wrapdir") is not None:
                 ctx.stat("extend:schema_directives:%d-new-fields-carry-it:%d-source-fields-carry-it:%s" % (
                     len(e["wrapdir"]["targets"]), min(len(step.get("already_wrapped", [])), 3), status.split(":")[0]))
+            if any(t.get("implements") for t in e["new_types"]):
+                ctx.stat("extend:new-type-implements-an-interface:%s" % status.split(":")[0])
             if any(t["name"].startswith("_") for t in e["new_types"]):
                 ctx.stat("extend:new-names-with-a-leading-underscore:%s" % status.split(":")[0])
         found = []
